@@ -124,6 +124,52 @@ Section TwoWay.
   Definition update_b (s : pair_state) (row_ids : list nat) (values : list cell) : res pair_state :=
     bind (update_a (swap s) row_ids values) (fun s' => Ok (swap s')).
 
+  (* user-level [Bulk]AddRecord of new rows `row_ids` of TA with `values` for column A (doBulkAddOrReplace): the
+     adjustments are applied BEFORE the rows exist, then Engine.add_records sets every given cell (no trimming).
+     same_table: B lives in TA too, so its table gains the rows as well. *)
+  Definition add_a (same_table : bool) (s : pair_state) (row_ids : list nat) (values : list cell) : res pair_state :=
+    bind (prepare_new_values (p_a s) (rc_kind (p_b s)) row_ids values)
+         (fun va =>
+            bind (apply_adjustments (p_rows_b s) (p_b s) (snd va))
+                 (fun b' =>
+                    bind (fold_left (fun acc rv => bind acc (fun c' => col_set hack c' (fst rv) (snd rv)))
+                                    (combine row_ids (fst va)) (Ok (p_a s)))
+                         (fun a' =>
+                            let rows_a' := set_union (p_rows_a s) row_ids in
+                            Ok {| p_a := a'; p_b := b'; p_rows_a := rows_a';
+                                  p_rows_b := if same_table then set_union (p_rows_b s) row_ids else p_rows_b s |}))).
+
+  Definition add_b (same_table : bool) (s : pair_state) (row_ids : list nat) (values : list cell) : res pair_state :=
+    bind (add_a same_table (swap s) row_ids values) (fun s' => Ok (swap s')).
+
+  (* ONE user-level update writing BOTH columns of a self-referential pair (A and B in the same table):
+     convert_action_values prepares each column from the state before the action; trim_update_action keeps the
+     columns with some changed value and the rows where a kept column changes; the two extra actions are applied,
+     then the trimmed action sets both columns. *)
+  Definition changed_flags (c : refcol) (row_ids : list nat) (values : list cell) : list bool :=
+    map (fun rv => negb (cell_eqb (snd rv) (raw_get c (fst rv)))) (combine row_ids values).
+
+  Fixpoint select {A} (flags : list bool) (l : list A) : list A :=
+    match flags, l with
+    | f :: flags', x :: l' => if f then x :: select flags' l' else select flags' l'
+    | _, _ => []
+    end.
+
+  Definition update_both (s : pair_state) (row_ids : list nat) (vals_a vals_b : list cell) : res pair_state :=
+    bind (prepare_new_values (p_a s) (rc_kind (p_b s)) row_ids vals_a) (fun va =>
+    bind (prepare_new_values (p_b s) (rc_kind (p_a s)) row_ids vals_b) (fun vb =>
+      let ch_a := changed_flags (p_a s) row_ids (fst va) in
+      let ch_b := changed_flags (p_b s) row_ids (fst vb) in
+      let keep_a := existsb (fun x => x) ch_a in
+      let keep_b := existsb (fun x => x) ch_b in
+      let row_keep := map (fun xy => (keep_a && fst xy) || (keep_b && snd xy)) (combine ch_a ch_b) in
+      let rows_k := select row_keep row_ids in
+      bind (apply_adjustments (p_rows_b s) (p_b s) (snd va)) (fun b1 =>
+      bind (apply_adjustments (p_rows_a s) (p_a s) (snd vb)) (fun a1 =>
+      bind (if keep_a then doc_bulk_update hack (p_rows_a s) a1 rows_k (select row_keep (fst va)) else Ok a1) (fun a2 =>
+      bind (if keep_b then doc_bulk_update hack (p_rows_b s) b1 rows_k (select row_keep (fst vb)) else Ok b1) (fun b2 =>
+        Ok {| p_a := a2; p_b := b2; p_rows_a := p_rows_a s; p_rows_b := p_rows_b s |})))))).
+
   (* recalc_from_reverse_values of column A: B is rebuilt from A's relation, row by row of TB (AddReverseColumn,
      and after a Ref<->RefList switch of A) *)
   Definition recalc_from_a (s : pair_state) : res pair_state :=
@@ -139,4 +185,21 @@ Definition sym (s : pair_state) : Prop :=
 
 Definition pair_eqb (x y : pair_state) : bool :=
   col_eqb (p_a x) (p_a y) && col_eqb (p_b x) (p_b y) &&
+  list_eqb Nat.eqb (p_rows_a x) (p_rows_a y) && list_eqb Nat.eqb (p_rows_b x) (p_rows_b y).
+
+(* comparison up to trailing default cells (table.grow_to_max pads every column of a table) *)
+Fixpoint strip_rev (d : cell) (l : list cell) : list cell :=
+  match l with
+  | x :: t => if cell_eqb x d then strip_rev d t else l
+  | [] => []
+  end.
+Definition strip (d : cell) (l : list cell) : list cell := rev (strip_rev d (rev l)).
+
+Definition col_eqv (a b : refcol) : bool :=
+  kind_eqb (rc_kind a) (rc_kind b) &&
+  list_eqb cell_eqb (strip (default (rc_kind a)) (rc_data a)) (strip (default (rc_kind a)) (rc_data b)) &&
+  inv_eqb (rc_inv a) (rc_inv b).
+
+Definition pair_eqv (x y : pair_state) : bool :=
+  col_eqv (p_a x) (p_a y) && col_eqv (p_b x) (p_b y) &&
   list_eqb Nat.eqb (p_rows_a x) (p_rows_a y) && list_eqb Nat.eqb (p_rows_b x) (p_rows_b y).
